@@ -422,9 +422,9 @@ class Unit:
         f = self.functions[name]
         if name == '_escape':
             names, va, kw, ko = self.signature(f, False)
-            if names != ['s'] or va or kw or ko: bad(f, 'signature of _escape')
+            if len(names) != 1 or va or kw or ko: bad(f, 'signature of _escape')
             if len(args) != 1 or args[0][1] != EXTRA: bad(node, f'_escape of {[t for _, t in args]}')
-            rt = self.translate('_escape', f, [('s', EXTRA)], '_escape', '', '`lib.tags._escape(s)`')
+            rt = self.translate('_escape', f, [(names[0], EXTRA)], '_escape', '', '`lib.tags._escape(s)`')
             return f'_escape db {atom(args[0][0])}', rt
         bad(node, f'call of {name}')
 
@@ -433,7 +433,7 @@ class Unit:
             f = self.methods[name]
             names, va, kw, ko = self.signature(f, True)
             if names or va or kw or ko: bad(f, 'signature of get_priority')
-            rt = self.translate('Tag.get_priority', f, [('self', TAG)], 'Tag.get_priority', '', '`lib.tags.Tag.get_priority(self)`: the letter as a one-character str')
+            rt = self.translate('Tag.get_priority', f, [(f.args.args[0].arg, TAG)], 'Tag.get_priority', '', '`lib.tags.Tag.get_priority(self)`: the letter as a one-character str')
             return f'Tag.get_priority db {atom(self_text)}', rt
         bad(node, f'method {name}')
 
@@ -463,16 +463,17 @@ def generate(repo):
     # safe_format(template, *args, **kwargs)
     f = u.functions['safe_format']
     names, va, kw, ko = u.signature(f, False)
-    if names != ['template'] or va is None or kw is None or ko: bad(f, 'signature of safe_format')
-    rt = u.translate('safe_format', f, [('template', STR), (va, LIST(EXTRA)), (kw, DICT(STR, EXTRA))], 'safe_format', '',
+    if len(names) != 1 or va is None or kw is None or ko: bad(f, 'signature of safe_format')
+    rt = u.translate('safe_format', f, [(names[0], STR), (va, LIST(EXTRA)), (kw, DICT(STR, EXTRA))], 'safe_format', '',
                      '`lib.tags.safe_format(template, *args, **kwargs)`; the result is a safestr')
     if rt != STR: raise Untranslatable(f'safe_format returns {rt}')
     # Tag.format(self, target, *extra, color=False)
     f = u.methods['format']
     names, va, kw, ko = u.signature(f, True)
-    if names != ['target'] or va is None or kw or [k for k, _ in ko] != ['color'] or not (isinstance(ko[0][1], ast.Constant) and ko[0][1].value is False):
+    if len(names) != 1 or va is None or kw or len(ko) != 1 or not (isinstance(ko[0][1], ast.Constant) and ko[0][1].value is False):
         bad(f, 'signature of Tag.format')
-    rt = u.translate('Tag.format', f, [('self', TAG), ('target', STR), (va, LIST(EXTRA)), ('color', BOOL)], 'Tag.format', ' (colors : Tags.Str × Tags.Str)',
+    selfname = f.args.args[0].arg
+    rt = u.translate('Tag.format', f, [(selfname, TAG), (names[0], STR), (va, LIST(EXTRA)), (ko[0][0], BOOL)], 'Tag.format', ' (colors : Tags.Str × Tags.Str)',
                      '`lib.tags.Tag.format(self, target, *extra, color=color)`; `colors` is what `self.get_colors()` answers')
     if rt != STR: raise Untranslatable(f'Tag.format returns {rt}')
     if u.defs['_escape'][0] != STR or u.defs['Tag.get_priority'][0] != STR: raise Untranslatable('return types')
